@@ -361,6 +361,119 @@ theorem broken_date (u : Int) :
 
 end Cal
 
+/-! ## day of the year, ISO week -/
+
+namespace Cal
+
+/-- days from 0000-03-01 to March 1 of the (March-based) year `y`, for every integer year -/
+def marchDays (y : Int) : Int := y / 400 * 146097 + (daysBeforeYoe (y % 400).toNat : Nat)
+
+theorem daysOfCivil_eq (y : Int) (m d : Nat) :
+    daysOfCivil y m d = marchDays (y - (if m ≤ 2 then 1 else 0)) + (doyOfMonthDay m d : Nat) - 719468 := by
+  simp only [daysOfCivil, marchDays]
+  omega
+
+/-- consecutive March-based years are 365 or 366 days apart -/
+theorem marchDays_succ (y : Int) : marchDays (y + 1) = marchDays y + (yearLenMarch (y % 400).toNat : Nat) := by
+  simp only [marchDays]
+  generalize hr : (y % 400).toNat = r
+  have hr400 : r < 400 := by omega
+  have hy : y = y / 400 * 400 + (r : Int) := by omega
+  by_cases h399 : r = 399
+  · have e1 : (y + 1) / 400 = y / 400 + 1 := by omega
+    have e2 : ((y + 1) % 400).toNat = 0 := by omega
+    rw [e1, e2, h399]
+    have h1 : daysBeforeYoe 0 = 0 := by decide
+    have h2 : daysBeforeYoe 399 = 145731 := by decide
+    have h3 : yearLenMarch 399 = 366 := by decide
+    rw [h1, h2, h3]
+    omega
+  · have e1 : (y + 1) / 400 = y / 400 := by omega
+    have e2 : ((y + 1) % 400).toNat = r + 1 := by omega
+    rw [e1, e2]
+    simp only [daysBeforeYoe, yearLenMarch]
+    split <;> omega
+
+
+/-- 1970-01-01 … : January 1 of the year `y` -/
+theorem daysOfCivil_jan1 (y : Int) : daysOfCivil y 1 1 = marchDays (y - 1) + 306 - 719468 := by
+  rw [daysOfCivil_eq]
+  have : doyOfMonthDay 1 1 = 306 := by decide
+  simp [this]
+
+/-- the day of the year of a valid date: between 1 and 365, or 366 in a leap year -/
+theorem yday_bounds (y : Int) (m d : Nat) (hm1 : 1 ≤ m) (hm : m ≤ 12) (hd1 : 1 ≤ d) (hd : d ≤ daysInMonth y m) :
+    0 ≤ daysOfCivil y m d - daysOfCivil y 1 1 ∧
+    daysOfCivil y m d - daysOfCivil y 1 1 < (if isLeap y then 366 else 365) := by
+  obtain ⟨_, hdoy366, hnl⟩ := dayMonth_spec m d hm1 hm hd1 (Nat.le_trans hd (daysInMonth_le_leap y m))
+  rw [daysOfCivil_jan1, daysOfCivil_eq]
+  have hlo := (monthDay_spec (doyOfMonthDay m d) hdoy366).2.2.2.2.2.2
+  rw [(dayMonth_spec m d hm1 hm hd1 (Nat.le_trans hd (daysInMonth_le_leap y m))).1] at hlo
+  simp only at hlo
+  by_cases h2 : m ≤ 2
+  · -- January, February: the same March-based year y − 1
+    simp only [h2, if_true]
+    have h306 := hlo.mp h2
+    have hleap := yearLenMarch_leap ((y - 1) % 400).toNat ((y - 1) / 400) (by omega)
+    have hyy : (((y - 1) % 400).toNat : Int) + (y - 1) / 400 * 400 + 1 = y := by omega
+    rw [hyy] at hleap
+    constructor
+    · omega
+    · split
+      · omega
+      · next hnl' =>
+        have : doyOfMonthDay m d < 365 := by
+          apply hnl
+          by_cases hm2 : m = 2
+          · subst hm2
+            rw [daysInMonth_feb] at hd
+            simp only [hnl'] at hd
+            exact hd
+          · rw [daysInMonth_ne2 hm2 1 y]; exact hd
+        omega
+  · -- March … December: the March-based year y, one year length after the year y − 1
+    simp only [h2, if_false, Int.sub_zero]
+    have h306 : doyOfMonthDay m d < 306 := by
+      have : ¬ 306 ≤ doyOfMonthDay m d := fun h => h2 (hlo.mpr h)
+      omega
+    have hs := marchDays_succ (y - 1)
+    have e : y - 1 + 1 = y := by omega
+    rw [e] at hs
+    have hleap := yearLenMarch_leap ((y - 1) % 400).toNat ((y - 1) / 400) (by omega)
+    have hyy : (((y - 1) % 400).toNat : Int) + (y - 1) / 400 * 400 + 1 = y := by omega
+    rw [hyy] at hleap
+    rcases yearLenMarch_le ((y - 1) % 400).toNat with hl | hl
+    · have : ¬ isLeap y = true := by intro h; have := hleap.mpr h; omega
+      simp only [this]
+      omega
+    · have : isLeap y = true := hleap.mp hl
+      simp only [this, if_true]
+      omega
+
+
+/-- **the day of the year** of a broken-down instant is between 1 and 365, 366 in a leap year -/
+theorem broken_yday (u : Int) :
+    1 ≤ (broken u).yday ∧ (broken u).yday ≤ (if isLeap (broken u).year then 366 else 365) := by
+  obtain ⟨hm1, hm12, hd1, hdm, hdays⟩ := broken_date u
+  have hb := yday_bounds (broken u).year (broken u).month (broken u).day hm1 hm12 hd1 hdm
+  rw [hdays] at hb
+  have hy : (broken u).yday = (u / 86400 - daysOfCivil (broken u).year 1 1).toNat + 1 := rfl
+  rw [hy]
+  cases hl : isLeap (broken u).year
+  · simp only [hl, Bool.false_eq_true, if_false] at hb ⊢; omega
+  · simp only [hl, if_true] at hb ⊢; omega
+
+/-- **the ISO week number** is between 1 and 53 -/
+theorem isoWeek_range (z : Int) : 1 ≤ (isoWeek z).2 ∧ (isoWeek z).2 ≤ 53 := by
+  simp only [isoWeek]
+  generalize hth : z + 3 - (((weekdayOfDays z + 6) % 7 : Nat) : Int) = th
+  obtain ⟨hm1, hm12, hd1, hdm⟩ := civil_ranges th
+  have hb := yday_bounds (civilOfDays th).1 (civilOfDays th).2.1 (civilOfDays th).2.2 hm1 hm12 hd1 hdm
+  rw [daysOfCivil_civilOfDays] at hb
+  split at hb <;> omega
+
+end Cal
+
 /-! ## `Strftime` returns a text (or leaves the model): it has no error result -/
 
 namespace DateF
